@@ -195,6 +195,12 @@ def units(tier):
             us.append(("emit_report[%s,%s]" % (p, latched), "unit_emit_report", dict(prio=p, latched=latched)))
     for sh in cli_c.EMIT_SHAPES:
         us.append(("emit_files[%s]" % ",".join(sh), "unit_emit_files", dict(shape=sh)))
+    # the same obligations under every report format and -W selection: neither may change status, files or bytes
+    for rf in ("bare", "graphical"):
+        for ws in (["all"], ["no-implicit-operand"], ["meta-typo"], ["no-default", "no-meta-typo"], ["nosuch-warning", "no-all"]):
+            for of, ne in ((None, 2), ("out.bin", 0)):
+                us.append(("main_cli[%s,%s,%s,%s]" % (of, ne, rf, ws), "unit_main_cli", dict(outfile_kind=of, lst=True, implicit_bin=False, n_emitted=ne, report_format=rf, warnings=ws)))
+    us.append(("main_cli[graphical]", "unit_main_cli", dict(outfile_kind=None, lst=False, implicit_bin=True, n_emitted=0, report_format="graphical", warnings=None)))
     for of in OUTFILES:
         for lst in (False, True):
             for ib in (False, True):
